@@ -2,9 +2,17 @@
 package props
 
 import (
+	"embed"
+	"fmt"
+	"os"
 	"go/types"
+	"regexp"
+	"strings"
 
+	"dsverif/internal/an"
 	"dsverif/internal/core"
+
+	"golang.org/x/tools/go/packages"
 )
 
 type Prop struct {
@@ -19,3 +27,127 @@ var Registry = map[string]Prop{}
 
 // types_Object is an alias used by property files that do not import go/types themselves.
 type types_Object = types.Object
+
+// RunWithFallback evaluates the property on the tree as written. When some obligation does not hold,
+// the property is evaluated once more on the normal form of its packages in which calls to same-package
+// helpers that no rule refers to by name are inlined (an.Inline: behaviour-preserving, re-type-checked);
+// if everything holds there, that result is kept — a rule that holds on the normal form holds on the
+// code as written (typical case: a loop or a branch was extracted into a helper). Otherwise the first
+// result stands unchanged.
+func RunWithFallback(c *core.Ctx, p Prop, thorough bool) {
+	run := func() {
+		p.Run(c)
+		if thorough && p.Thorough != nil {
+			p.Thorough(c)
+		}
+	}
+	m := c.Mark()
+	run()
+	force := os.Getenv("VERIF_FORCE_INLINE") != "" // testing aid: always evaluate the normal form as well
+	if (c.HoldSince(m) && !force) || len(c.Fatal) > 0 {
+		return
+	}
+	over := map[string]*packages.Package{}
+	var names []string
+	for _, pat := range p.Patterns {
+		rel := strings.TrimPrefix(pat, "./")
+		pkg := c.Prog.Pkg(rel)
+		if pkg == nil {
+			continue
+		}
+		res, err := an.Inline(pkg)
+		if err != nil {
+			c.Note("helper inlining of " + rel + " skipped: " + err.Error())
+			if force {
+				fmt.Fprintln(os.Stderr, "normal form: inlining of "+rel+" skipped: "+err.Error())
+			}
+			continue
+		}
+		if res != nil {
+			over[pkg.PkgPath] = res.Pkg
+			names = append(names, res.Inlined...)
+		}
+	}
+	if len(over) == 0 {
+		return
+	}
+	first := c.Rollback(m)
+	m2 := c.Mark()
+	c.Prog.Override = over
+	func() {
+		defer func() {
+			if r := recover(); r != nil {
+				c.Undec("R0", "normal-form", 0, "checker panic on the inlined normal form")
+			}
+		}()
+		run()
+	}()
+	c.Prog.Override = nil
+	if force {
+		fmt.Fprintf(os.Stderr, "normal form: %d helpers inlined (%s); holds=%v\n", len(names), strings.Join(names, ", "), c.HoldSince(m2))
+		for _, o := range c.Obs {
+			if o.Status != core.Holds {
+				fmt.Fprintf(os.Stderr, "  normal form: %s %s %s: %s\n", o.Status, o.Key, o.Pos, o.Detail)
+			}
+		}
+	}
+	if c.HoldSince(m2) {
+		c.Note("some construct was not found in the code as written; all rules hold on the normal form with these helpers inlined: " + strings.Join(names, ", "))
+		return
+	}
+	for _, o := range c.Obs {
+		if o.Status != core.Holds {
+			c.Note("with the helpers " + strings.Join(names, ", ") + " inlined: " + o.Status + " " + o.Key + " at " + o.Pos + ": " + o.Detail)
+		}
+	}
+	c.Rollback(m2)
+	c.Restore(first)
+}
+
+//go:embed *.go
+var ruleSources embed.FS
+
+var ruleText string
+
+func init() {
+	ents, _ := ruleSources.ReadDir(".")
+	var sb strings.Builder
+	for _, e := range ents {
+		if b, err := ruleSources.ReadFile(e.Name()); err == nil {
+			sb.Write(b)
+		}
+	}
+	ruleText = sb.String()
+	known := map[string]bool{}
+	for _, l := range strings.Split(knownFuncs, "\n") {
+		known[strings.TrimSpace(l)] = true
+	}
+	an.InlineExclude = func(f *types.Func) bool {
+		// (1) a function some rule refers to by name is never inlined: the call is what the rule inspects
+		if regexp.MustCompile(`\b` + regexp.QuoteMeta(f.Name()) + `\b`).MatchString(ruleText) {
+			return true
+		}
+		// (2) only helpers that did not exist on the pinned tree are inlined (the "extract helper"
+		// refactoring); VERIF_INLINE_ALL lifts this for testing the inliner itself
+		if os.Getenv("VERIF_INLINE_ALL") != "" {
+			return false
+		}
+		key := strings.TrimPrefix(strings.TrimPrefix(f.Pkg().Path(), core.ModPath), "/") + ":"
+		if key == ":" {
+			key = ".:"
+		}
+		if sig, ok := f.Type().(*types.Signature); ok && sig.Recv() != nil {
+			t := sig.Recv().Type()
+			if p, ok := t.(*types.Pointer); ok {
+				t = p.Elem()
+			}
+			if n, ok := t.(*types.Named); ok {
+				key += n.Obj().Name() + "."
+			}
+		}
+		return known[key+f.Name()]
+	}
+}
+
+//go:embed known_funcs.txt
+var knownFuncs string
